@@ -12,7 +12,7 @@ CLAIMED = {
     ),
     "C15": dict(
         design="5.6",
-        technique="deterministic simulation with fault injection: exhaustive static sweep of fault assignments (19 behaviours x up to 3 upstreams x 5 endpoints) plus seeded per-connection fault sequences under concurrent callers; per-operation attempt traces judged against the failover contract",
+        technique="deterministic simulation with fault injection: exhaustive static sweep of fault assignments (21 behaviours x up to 3 upstreams x 5 endpoints) plus seeded per-connection fault sequences under concurrent callers; per-operation attempt traces judged against the failover contract",
         text="Every connection attempt of every operation is attributed (context value -> dialer -> server) and the behaviour the simulator applied to it is recorded; the oracle checks configured order, no skips/repeats, failover only after unavailability, mandatory failover after refused/timeout/5xx/server_error, query errors returned unchanged from the right upstream, and that total outages stay recognisable as unavailability. The static layer is enumerated completely inside the simulator; the dynamic layer is seeded search.",
         note="Trusted: as C14. Behaviours the property does not classify (404, truncated/garbage 200 bodies, 5xx with Prometheus-native JSON error types) are accepted either way and what pint does with them is recorded in the evidence. The FailoverGroup is built by pint's own config loader.",
     ),
